@@ -348,6 +348,7 @@ def handle_crash(spec, binpath, bdir, tier, cur, errtxt, open_sigs, violations, 
         notes.append("a worker died but its last case does not reproduce the death (%s): not reported" % ",".join(r[0] for r in res))
         return "flaky"
     sig, msg = res[0][1], res[0][2]
+    asan_sig = sig
     if not spec.get("memory"):
         nos = os.path.join(bdir, spec["engine"] + "_nosan")
         if spec.get("nosan") and os.path.exists(nos):
@@ -366,7 +367,7 @@ def handle_crash(spec, binpath, bdir, tier, cur, errtxt, open_sigs, violations, 
             if line not in known_lines:
                 known_lines.append(line)
             return "known"
-    small = ddmin_text(binpath, spec, text, tier, "crash", sig.split("@")[0][:20])
+    small = ddmin_text(binpath, spec, text, tier, "crash", asan_sig.split("@")[0][:24])
     header = "# property %s\n# signature %s\n# %s\n" % (pid, sig, msg.split("\n")[0][:200])
     violations.append((sig, msg, save_replay(pid, header + small)))
     return "crash"
